@@ -20,6 +20,12 @@ type deepInstr struct {
 }
 
 func deepInstrs(root *ssa.Function, depth int) []deepInstr {
+	return deepInstrsPruned(root, depth, nil)
+}
+
+// deepInstrsPruned: like deepInstrs, but does not descend into callees for which prune returns true (the call instruction
+// itself is still reported).
+func deepInstrsPruned(root *ssa.Function, depth int, prune func(*ssa.Function) bool) []deepInstr {
 	var out []deepInstr
 	var walk func(fn *ssa.Function, site ssa.Instruction, chain []*ssa.Call, seen map[*ssa.Function]bool, d int)
 	walk = func(fn *ssa.Function, site ssa.Instruction, chain []*ssa.Call, seen map[*ssa.Function]bool, d int) {
@@ -32,7 +38,7 @@ func deepInstrs(root *ssa.Function, depth int) []deepInstr {
 				out = append(out, deepInstr{in: in, site: s, calls: chain})
 				if call, ok := in.(*ssa.Call); ok && d > 0 {
 					cal := staticCallee(&call.Call)
-					if cal != nil && cal.Blocks != nil && !seen[cal] && rootFn(cal).Pkg == rootFn(root).Pkg && cal != root {
+					if cal != nil && cal.Blocks != nil && !seen[cal] && rootFn(cal).Pkg == rootFn(root).Pkg && cal != root && (prune == nil || !prune(cal)) {
 						seen[cal] = true
 						walk(cal, s, append(append([]*ssa.Call{}, chain...), call), seen, d-1)
 						delete(seen, cal)
